@@ -2,7 +2,7 @@
 """BOUNDED stand-in (not a proof) for the part of C19 that is not under contract (Canvas::plane, recognize_horizontal_table,
 builder::build): decision tables are DRAWN here as Unicode box-drawing text - rules as rows and rules as columns, 1..3 inputs,
 1..2 outputs, 0..2 annotation columns, 1..3 rules, every hit policy marker, with and without information item name, with and
-without allowed input / output values (rules as rows), an information item name box narrower than and exactly as wide as the table, cell texts of varying width, rule rows one to three text lines high - and the real recognizer
+without allowed input / output values (rules as rows), an information item name box narrower than and exactly as wide as the table, cell texts of varying width, rule rows one to three text lines high, an input entry shared by two consecutive rules (a merged cell) in the first / last / only input column - and the real recognizer
 (dmntk_recognizer::build through the replay driver) must give back the same hit policy, aggregator, orientation, input
 expressions, allowed values, output label / component names, annotation names and rule entries in the same order (white space
 around cell texts aside).
@@ -90,9 +90,27 @@ def horizontal(t):
         out.append(sep)
         out.append(content(vals, 1))
     out.append(line('╞', '═', '╪', '╬', '╡'))
+    merged = t.get('merge')   # (first rule, column): that rule and the next share ONE cell in that input column (no line between them)
+
+    def merged_sep(m):
+        s_ = '├'
+        for c in range(ncol):
+            s_ += (' ' if c == m else '─') * width[c]
+            if c == ncol - 1:
+                s_ += '┤'
+            else:
+                lh, rh = c != m, c + 1 != m
+                s_ += ({(True, True): '╫', (True, False): '╢', (False, True): '╟', (False, False): '║'} if c in dbl else {(True, True): '┼', (True, False): '┤', (False, True): '├', (False, False): '│'})[(lh, rh)]
+        return s_
     for i, r in enumerate(rows):
+        if merged and i == merged[0] + 1:
+            r = list(r)
+            r[merged[1]] = ''
         out.append(content(r, i))
-        out.append(line('├', '─', '┼', '╫', '┤') if i < len(rows) - 1 else line('└', '─', '┴', '╨', '┘'))
+        if merged and i == merged[0]:
+            out.append(merged_sep(merged[1]))
+        else:
+            out.append(line('├', '─', '┼', '╫', '┤') if i < len(rows) - 1 else line('└', '─', '┴', '╨', '┘'))
     return '\n'.join('  ' + l for chunk in out for l in chunk.split('\n')) + '\n'
 
 
@@ -169,6 +187,17 @@ def tables():
         t2 = copy.deepcopy(t0)
         t2['rules'] = [([e + ('\nor more' if j == 0 else '') for j, e in enumerate(r[0])], [e + ('\nline two\nline three' if (j == 0 and i % 3 == 0) else '') for j, e in enumerate(r[1])], r[2]) for r in t2['rules']]
         res.append(('H', t2))
+    # one input entry shared by two consecutive rules (a merged cell, as in the crate's own example EX_08): in the last input column - next to the
+    # output double line -, in the first one, in a single-input table; the two rules read the same entry
+    for (ni, nr, col, first) in ((1, 2, 1, 0), (1, 3, 1, 1), (2, 3, 2, 0), (2, 3, 1, 1), (3, 3, 3, 1), (3, 2, 2, 0)):
+        for (marker, na) in (('U', 0), ('F', 1), ('C+', 0)):
+            t = {'marker': marker, 'inputs': ['Input %d' % (i + 1) for i in range(ni)], 'outputs': ['Out'], 'label': 'Result', 'annotations': ['Note'][:na], 'values': False,
+                 'input_values': ['-'] * ni, 'output_values': ['-'], 'name': None, 'rules': []}
+            for r in range(nr):
+                t['rules'].append(([ents[(r + i + ni) % len(ents)] for i in range(ni)], [ents[(2 * r + 5) % len(ents)]], ['remark %d' % r][:na]))
+            t['rules'][first + 1][0][col - 1] = t['rules'][first][0][col - 1]
+            t['merge'] = (first, col)
+            res.append(('H', t))
     # score tables: integer output entries (the cells after the output double line of the last rule read like rule numbers)
     for (marker, outs) in (('C+', ['5', '10', '20']), ('C+', ['1', '2', '3']), ('F', ['3', '2']), ('U', ['2'])):
         for na in (0, 1):
